@@ -3,11 +3,13 @@ use std::path::Path;
 
 pub mod c09;
 pub mod c21;
+pub mod c26;
 
 pub fn for_property(p: &str) -> Vec<Suite> {
     match p {
         "C09" => c09::suites(),
         "C21" => c21::suites(),
+        "C26" => c26::suites(),
         _ => vec![],
     }
 }
